@@ -8,6 +8,10 @@ import (
 	"fmt"
 
 	"github.com/goghcrow/yae"
+	"github.com/goghcrow/yae/closure"
+	"github.com/goghcrow/yae/compiler"
+	"github.com/goghcrow/yae/fun"
+	"github.com/goghcrow/yae/interp"
 	"github.com/goghcrow/yae/parser"
 	"github.com/goghcrow/yae/parser/ast"
 	"github.com/goghcrow/yae/parser/lexer"
@@ -103,13 +107,72 @@ func reuseTree(src string) A {
 	if !ok {
 		return bad
 	}
-	exShared := yae.NewExpr()
-	for _, e := range envs {
-		got := run(exShared, func() interface{} { return shared }, e)
-		fresh := yae.NewExpr()
-		want := run(fresh, func() interface{} { return fresh.Parse(src) }, e)
-		if got != want {
-			bad = append(bad, J{"env": e.name, "reused": clip(got, 80), "fresh": clip(want, 80)})
+	_ = run
+	// compile the ONE parsed tree for each environment in turn, keep the closures, and only then invoke them all:
+	// a later compilation must not change what an earlier callable computes (any back end, also the interpreter,
+	// which reads the checker's annotations at run time)
+	invoke := func(clo compiler.Closure, e envT) string {
+		out := "?"
+		func() {
+			defer func() {
+				if r := recover(); r != nil {
+					out = "fail"
+				}
+			}()
+			ve := val.NewEnv()
+			ve.Put("x", e.v)
+			rt := val.NewEnv() // the engine's run-time function table, rebuilt (the interpreter resolves calls at run time)
+			for _, f := range fun.BuiltIn() {
+				rt.RegisterFun(f)
+			}
+			out = "value " + fmt.Sprint(clo(ve.Inherit(rt)))
+		}()
+		return out
+	}
+	compile := func(ex *yae.Expr, tree astExpr, e envT) (clo compiler.Closure) {
+		defer func() {
+			if r := recover(); r != nil {
+				clo = nil
+			}
+		}()
+		te := types.NewEnv()
+		te.Put("x", e.ty)
+		return ex.CompileExpr(tree, te)
+	}
+	outcome := func(clo compiler.Closure, e envT) string {
+		if clo == nil {
+			return "reject"
+		}
+		return invoke(clo, e)
+	}
+	for _, b := range []struct {
+		name string
+		comp compiler.Compiler
+	}{{"vm", nil}, {"closure", closure.Compile}, {"interp", interp.Interp}} {
+		mk := func() *yae.Expr {
+			ex := yae.NewExpr()
+			if b.comp != nil {
+				ex.UseCompiler(b.comp)
+			}
+			return ex
+		}
+		exShared := mk()
+		clos := make([]compiler.Closure, len(envs))
+		for i, e := range envs {
+			clos[i] = compile(exShared, shared, e)
+		}
+		for i, e := range envs {
+			got := outcome(clos[i], e)
+			fresh := mk()
+			var ft astExpr
+			func() {
+				defer func() { recover() }()
+				ft = fresh.Parse(src)
+			}()
+			want := outcome(compile(fresh, ft, e), e)
+			if got != want {
+				bad = append(bad, J{"backend": b.name, "env": e.name, "reused": clip(got, 80), "fresh": clip(want, 80)})
+			}
 		}
 	}
 	return bad
